@@ -516,6 +516,20 @@ func init() {
 		Doc: "each condition is tested against its own event attribute and a miss forces 'no match'", Run: runMatchPair})
 }
 
+// memberVal: the value that says "the key is in the set" — the looked-up bool
+// of a map[K]bool, the ok of a comma-ok lookup (map[K]struct{} sets).
+func memberVal(l *ssa.Lookup) ssa.Value {
+	if !l.CommaOk || l.Referrers() == nil {
+		return l
+	}
+	for _, r := range *l.Referrers() {
+		if ex, ok := r.(*ssa.Extract); ok && ex.Index == 1 {
+			return ex
+		}
+	}
+	return l
+}
+
 func runMatchPair(c *core.Ctx) {
 	P := c.P
 	match := P.Method(P.Root, "ReqFilterEventLimitMatcher", "Match")
@@ -544,7 +558,7 @@ func runMatchPair(c *core.Ctx) {
 			c.Bad(nil, fname(c, match), "pair("+row.cond+")", P.Pos(match.Pos()), fmt.Sprintf("the %s condition is not looked up with the event's %s (looked up with %v)", row.cond, row.attr, wrong))
 			continue
 		}
-		ok, why := impliesFalse(c, match, lk)
+		ok, why := impliesFalse(c, match, memberVal(lk))
 		c.Check(ok && len(wrong) == 0, nil, fname(c, match), "pair("+row.cond+")", P.Pos(lk.Pos()), row.cond+"[event."+row.attr+"] false ⇒ no match", "a miss in "+row.cond+" does not force 'no match': "+why)
 	}
 	// tags: Tags[tag[0]][tag[1] or ""] marks tag[0] as found; fewer found names than conditions ⇒ no match.
@@ -581,7 +595,7 @@ func runMatchPair(c *core.Ctx) {
 	guarded := false
 	if mu != nil {
 		for _, g := range an.Guards(host, mu.Block()) {
-			if g.V == ssa.Value(inner) && g.True {
+			if g.V == memberVal(inner) && g.True {
 				guarded = true
 			}
 		}
